@@ -59,7 +59,6 @@ def coord(ctx):
                                     recvs.setdefault(norm(a), []).append(a)
             # `x.parent.<something>`: x is the receiver, x.parent is not a second record
             roots = set(recvs)
-            roots = set(r for r in roots if not (r.endswith('.parent') and r[:-7] in roots))
             key = '%s|%s' % (fi.qual, norm(stmts[0])[:90])
             ok = len(roots) == 1
             obs.append(Ob('SA-COORD', key, ok, ctx.loc(fi, stmts[0]),
